@@ -1,11 +1,14 @@
 package vkit
 
 import (
+	"net/http"
 	"sort"
 	"strings"
+	"time"
 
 	"github.com/prometheus/client_golang/prometheus"
 	dto "github.com/prometheus/client_model/go"
+	"github.com/prometheus/common/expfmt"
 )
 
 // Metric is one gathered sample.
@@ -109,4 +112,25 @@ func Select(ms []Metric, nameSuffix string, match map[string]string) []Metric {
 		}
 	}
 	return out
+}
+
+// Scrape reads a Prometheus text exposition from url (the agent's own metric listener) and flattens it like Gather.
+func Scrape(url string) ([]Metric, error) {
+	cl := http.Client{Timeout: 5 * time.Second}
+	resp, err := cl.Get(url)
+	if err != nil {
+		return nil, err
+	}
+	defer resp.Body.Close()
+	var p expfmt.TextParser
+	fams, err := p.TextToMetricFamilies(resp.Body)
+	if err != nil {
+		return nil, err
+	}
+	var list []*dto.MetricFamily
+	for _, f := range fams {
+		list = append(list, f)
+	}
+	sort.Slice(list, func(i, j int) bool { return list[i].GetName() < list[j].GetName() })
+	return flatten(list), nil
 }
